@@ -989,7 +989,7 @@ func runC07(args []string) error {
 	nA, nB := 260, 200
 	nReg := 3
 	if *tier == "thorough" {
-		nA, nB, nReg = 10000, 8000, 40
+		nA, nB, nReg = 6000, 5000, 30
 	}
 	// newRng's seeding makes the streams of seeds k and k+2 shifted copies of each other: mix the seed first
 	root := &rng{s: (*seed + 0x632BE59BD9B4E019) * 0xD1342543DE82EF95}
@@ -1003,7 +1003,7 @@ func runC07(args []string) error {
 		for k := 0; k < nReg; k++ {
 			region := region
 			a := h.genA(root.fork(), region)
-			jobs = append(jobs, &c07job{run: func(j *c07job) { h.runA(j, a, region) }})
+			jobs = append(jobs, &c07job{a: a, run: func(j *c07job) { h.runA(j, a, region) }})
 		}
 	}
 	for k := 0; k < nB; k++ {
